@@ -498,6 +498,14 @@ func (x *xtr) callLibTuple(c *ast.CallExpr) (string, []*xty, bool) {
 // ---------------------------------------------------------------------------------------------
 // one function
 
+// a function translated into another generated module that this one calls
+type useSpec struct {
+	Go     string // the call as written, e.g. "conversion.BytesToUint64"
+	Lean   string // e.g. "Gen.Conversion.BytesToUint64"
+	Sig    string // Go function type, e.g. "func([]byte) uint64"
+	Module string // generated module to import
+}
+
 type constSpec struct {
 	File string // path relative to the repository
 	Name string // package-level `var X = errors.New("..")` or `const X = <int>`
@@ -522,6 +530,9 @@ func findType(f *ast.File, name string) ast.Expr {
 
 type fileLoader func(rel string) *ast.File
 
+// extra imports of generated modules (beside Base/GoRt.lean)
+var moduleImports = map[string][]string{}
+
 func translateExt(fset *token.FileSet, load fileLoader, sp spec, known map[string]*xty) []genFunc {
 	f := load(sp.File)
 	fd := findFunc(f, sp)
@@ -533,7 +544,10 @@ func translateExt(fset *token.FileSet, load fileLoader, sp spec, known map[strin
 	}
 	x := &xtr{fset: fset, sp: sp, env: map[string]*xty{}, structs: map[string]*xstruct{}, consts: map[string]xval{},
 		shared: map[string]bool{}, loops: map[ast.Stmt]*loopInfo{}, ptrParams: map[string]bool{}, params: map[string]bool{}, prims: map[string]bool{},
-		aliases: map[string]*xty{}, known: known}
+		aliases: map[string]*xty{}, known: known, uses: map[string]useSpec{}}
+	for _, u := range sp.Uses {
+		x.uses[u.Go] = u
+	}
 	x.fname = sp.Func
 	if sp.Recv != "" {
 		x.fname = sp.Recv + "_" + sp.Func
@@ -740,6 +754,12 @@ func translateExt(fset *token.FileSet, load fileLoader, sp spec, known map[strin
 	text := fmt.Sprintf("def %s %s%s : %s :=\n%s\n", x.fname, x.polyBinder(), strings.Join(params, " "), rty, indent(body, 1))
 	out = append(out, x.defs...)
 	out = append(out, genFunc{name: x.fname, text: text})
+	if x.usesKV {
+		moduleImports[sp.Module] = append(moduleImports[sp.Module], "SemaModel.Base.KV")
+	}
+	for _, u := range sp.Uses {
+		moduleImports[sp.Module] = append(moduleImports[sp.Module], "SemaModel.Generated."+u.Module)
+	}
 	// callable from functions translated later into the same module, if it is a plain function
 	if !x.hasExit && len(x.extras) == 0 && len(pre) == 0 && fd.Recv == nil {
 		ft := &xty{k: kFunc, results: x.results}
@@ -830,6 +850,11 @@ func (x *xtr) inPlaceParams(fd *ast.FuncDecl) []string {
 					hit[n] = true
 				}
 			}
+			if se, ok := t.Fun.(*ast.SelectorExpr); ok && (se.Sel.Name == "Put" || se.Sel.Name == "Delete") {
+				if id, ok := se.X.(*ast.Ident); ok && x.params[id.Name] && x.env[id.Name].k == kBucket {
+					hit[id.Name] = true
+				}
+			}
 		case *ast.AssignStmt:
 			for _, l := range t.Lhs {
 				if ie, ok := l.(*ast.IndexExpr); ok {
@@ -877,8 +902,8 @@ func findConst(x *xtr, f *ast.File, cs constSpec) xval {
 					continue
 				}
 				v := x.expr(vs.Values[i])
-				if gd.Tok == token.VAR && v.ty.k != kErr {
-					x.bad(vs, "package variable %s is not an errors.New(..) value (it could be reassigned)", cs.Name)
+				if gd.Tok == token.VAR && v.ty.k != kErr && !(v.ty.k == kList && v.ty.elem.k == kByte) {
+					x.bad(vs, "package variable %s is neither errors.New(..) nor []byte(\"..\") (assumed never reassigned)", cs.Name)
 				}
 				return v
 			}
